@@ -769,7 +769,7 @@ def int_from_bytes(I, fv, args, kw):
     if n > 7:
         raise Unsupported("from_bytes wider than 7 bytes")
     bs = [vb.at(k) for k in range(n)]
-    if order == "big":
+    if order.c == "big":
         bs.reverse()
     if n and all(not isinstance(b, int) for b in bs):
         hit = I.path.memo.get(("tobytes", "little") + tuple(z3.simplify(b).get_id() for b in bs))
